@@ -541,8 +541,15 @@ impl FunctionCompiler<'_> {
             let body = self.world_bodies.global_body(loc.to_naive());
 
             // todo: could this cause issues?
+            let global_ty = *ty;
             let old_loc = std::mem::replace(&mut self.loc, loc.wrap());
-            let res = self.compile_expr_with_args(body, no_load);
+            // the value might be narrower than the annotation of the global
+            // (`A : i64 : comptime { some_i32 }`), just as in `compile_global_binding_data`
+            let res = if no_load {
+                self.compile_expr_with_args(body, no_load)
+            } else {
+                self.compile_and_cast(body, global_ty)
+            };
             self.loc = old_loc;
 
             return res;
